@@ -172,7 +172,59 @@ def check(chk):
     shared.cache_rules(chk, m, 'R4.5')
     from . import c02
     c02.r26(chk, m, rule_id='R4.7')       # a stored \end-part that grows by one } per use closes one more group each time
+    r48(chk, m)
     chk.decline('that every concrete document leaves depth 1 (depends on the document being balanced)')
+
+
+def r48(chk, m):
+    from . import domheap as D
+    R = chk.rule('R4.8', 'a sub-interpreter closes the context it opened: createSubProcess, interpreted, pushes one marker frame and hands '
+                 'the marker to the new interpreter; endSubProcess on that interpreter pops exactly that marker (R4.1 counts the two calls as '
+                 'push and pop on this ground)', 1)
+    TeX = m.cls('plasTeX.TeX', 'TeX')
+    cre, end = m.find_method(TeX, 'createSubProcess'), m.find_method(TeX, 'endSubProcess')
+    need(cre is not None and end is not None, 'TeX.createSubProcess / endSubProcess not found')
+    chk.analysed(cre)
+    chk.analysed(end)
+
+    class H(D.DomHooks):
+        def call(self, interp, node, fname, args, kwargs, state):
+            if fname in ('the.context.push', 'the.context.pop'):
+                state.env['__ops'] = state.env.get('__ops', ()) + ((fname.rsplit('.', 1)[1], args[0] if args else None),)
+                return A.NONE
+            return D.DomHooks.call(self, interp, node, fname, args, kwargs, state)
+
+    def run(fn, env):
+        h = H(m, TeX)
+        h.should_inline = lambda fname, node, info: True
+        it = A.Interp(model=m, scope=fn, hooks=h, max_iter=4, exc_edges=False, inline=6, heap=True, precise_exc=True)
+        outs = it.run_function(fn, env=env)
+        if it.imprecise or it.unknown_branches:
+            raise D.Imprecise('; '.join((list(it.imprecise) + list(it.unknown_branches))[:3]))
+        return outs
+    ctx = A.Obj('context', {'push': A.Sym('extfunc:the.context.push', truthy=True), 'pop': A.Sym('extfunc:the.context.pop', truthy=True)})
+    doc = A.Obj('document', {'context': ctx})
+    me = A.Obj('tex', {'ownerDocument': doc}, cls=TeX)
+    try:
+        got = set()
+        for kind, s1, sub in run(cre, {'self': me}):
+            ops1 = s1.env.get('__ops', ())
+            if kind != 'return' or not isinstance(sub, A.Obj) or len(ops1) != 1 or ops1[0][0] != 'push' or not isinstance(ops1[0][1], A.Obj):
+                got.add(('createSubProcess: %s, context operations %s' % (kind, [o[0] for o in ops1]),))
+                continue
+            marker = ops1[0][1]
+            # (the constructor of TeX is not interpreted here: the document it was handed is its ownerDocument)
+            sub.attrs['ownerDocument'] = s1.env['self'].attrs['ownerDocument']
+            env2 = {k: v for k, v in s1.env.items() if k.startswith('__') and k != '__ops'}
+            env2.update({'self': sub, '__marker': marker})
+            for kind2, s2, v2 in run(end, env2):
+                ops2 = s2.env.get('__ops', ())
+                got.add((kind2, tuple('%s(%s)' % (o[0], 'the marker' if o[1] is s2.env['__marker'] else ('nothing' if o[1] is None else 'something else')) for o in ops2)))
+        chk.decide(R, 'createSubProcess / endSubProcess', got, {('return', ('pop(the marker)',))},
+                   'createSubProcess followed by endSubProcess on the interpreter it returned gives (outcome, context operations of endSubProcess) = %s; '
+                   'expected one pop of the marker frame that createSubProcess pushed' % sorted(got, key=repr), chk.where(end))
+    except (D.Imprecise, AnalysisError) as e:
+        chk.undecided(R, 'createSubProcess / endSubProcess', str(e), chk.where(end))
 
 
 def resolved_calls(m, fn):
